@@ -39,3 +39,12 @@ Print Assumptions C01_initial_cache_wf.
 Theorem C01_interpret_never_panics : forall t b, exists v, interpret t b = Ok v.
 Proof. exact interpret_ok. Qed.
 Print Assumptions C01_interpret_never_panics.
+
+(* `interpret` above is the hand-written model of ipfix.Interpret; it equals, for every FieldType constant and every octet
+   string, the interpretation driven by the tables regenerated from the CURRENT ipfix/interpret.go (minimum length and
+   returned value per type): a changed minimum length, a type dropped from a case list or a changed conversion breaks this *)
+From VF Require Proofs.TieInterp Gen.InfoModel.
+Theorem C01_interpret_is_the_source : forall name v, In (name, v) Gen.InfoModel.type_consts ->
+  forall b, interpret v b = TieInterp.interpret_src name b.
+Proof. exact TieInterp.tie_interpret. Qed.
+Print Assumptions C01_interpret_is_the_source.
